@@ -56,7 +56,8 @@ def draw_system(rng, seed: int, prop: str, *, families=("single",) * 6 + ("cross
         descs["N1"] = space.new_for(rng, d0, rng.choice(["overlap", "one", "same"]))
         descs["N2"] = space.new_for(rng, d2, "disjoint")
         if rng.random() < 0.3:
-            descs["W0"] = {"kind": "weights", "of": "D0", "seed": rng.randrange(10 ** 6)}
+            descs["W0"] = {"kind": "weights", "of": "D0", "seed": rng.randrange(10 ** 6),
+                           "name_kind": rng.choice(["var", "var", "coord", "none"])}
         fits["F0"] = {"X": "D0", "w": "W0" if "W0" in descs else None}
         fits["F1"] = {"X": "D1", "w": None}
         fits["F2"] = {"X": "D2", "w": None}
@@ -106,6 +107,14 @@ def draw_system(rng, seed: int, prop: str, *, families=("single",) * 6 + ("cross
         descs["NX2"] = space.new_for(seeds.stream(k + 1, "n"), dx2, "disjoint")
         descs["NY2"] = space.new_for(seeds.stream(k + 1, "n"), dy2, "disjoint")
         fits["F0"] = {"X": "X0", "Y": "Y0"}
+        if rng.random() < 0.25:
+            descs["WX0"] = {"kind": "weights", "of": "X0", "seed": rng.randrange(10 ** 6),
+                            "name_kind": rng.choice(["var", "coord", "none"])}
+            fits["F0"]["w"] = "WX0"
+            if rng.random() < 0.5:
+                descs["WY0"] = {"kind": "weights", "of": "Y0", "seed": rng.randrange(10 ** 6),
+                                "name_kind": rng.choice(["var", "coord", "none"])}
+                fits["F0"]["wY"] = "WY0"
         fits["F1"] = {"X": "X1", "Y": "Y1"}
         fits["F2"] = {"X": "X2", "Y": "Y2"}
         new = {"F0": [["NX0", "NY0"]], "F1": [["NX0", "NY0"]], "F2": [["NX2", "NY2"]]}
